@@ -324,7 +324,8 @@ func cmdAuthenticate(c *cli.Context) error {
 	username := c.Args().First()
 	if username == "" {
 		cli.ShowCommandHelp(c, "authenticate") //nolint:errcheck
-		return cli.NewExitError("", 0)
+		// nobody has been authenticated: callers that only look at the exit status must not see success
+		return cli.NewExitError("", 2)
 	}
 
 	password := c.Args().Get(1)
@@ -683,5 +684,8 @@ func main() {
 	}
 
 	wdl.Printf("calling app.Run()")
-	app.Run(os.Args) //nolint:errcheck
+	if err := app.Run(os.Args); err != nil {
+		// usage errors (e.g. an argument that looks like an unknown option) must not exit with status 0
+		os.Exit(2)
+	}
 }
